@@ -16,7 +16,7 @@ U32 = numpy.uint32
 
 META = {
     "level": "exploration",
-    "rule": ("pairs: all ordered pairs of subsets of a universe of size 7 (quick) / 9 (thorough) under 4 "
+    "rule": ("pairs: all ordered pairs of subsets of a universe of size 7 (quick) / 10 (thorough) under 4 "
              "order-preserving embeddings into uint32 (incl. 0 and 2^32-1), each through 3 kernels and 3 wrappers; "
              "random structured pairs up to 10^5 elements; wrapper None/copy conventions; multi-way union of 0-5 "
              "arrays; in-situ calls from cube walks and set updates. Non-trivial: both operands non-empty and neither "
@@ -26,7 +26,7 @@ META = {
                           "class:interleaved", "class:identical"],
                 "thorough": ["kernel_calls", "wrapper_calls", "many_calls", "insitu_kernel_calls", "long_pairs"]},
     "exhaustive": {"quick": "all 16384 ordered pairs of subsets of a 7-element universe x 4 embeddings x 6 entry points",
-                   "thorough": "all 262144 ordered pairs of subsets of a 9-element universe x 4 embeddings x 6 entry points"},
+                   "thorough": "all 1048576 ordered pairs of subsets of a 10-element universe x 4 embeddings x 6 entry points"},
     "assumptions": ["inputs satisfy the kernels' precondition (strictly increasing uint32); in-situ calls whose "
                     "inputs violate it are counted and skipped"],
 }
@@ -44,7 +44,7 @@ def shards(tier):
         out = []
         for e in ("identity", "gapped", "extremes", "random"):
             for part in range(4):
-                out.append({"label": "exh9-%s-%d" % (e, part), "kind": "exhaustive", "size": 9,
+                out.append({"label": "exh10-%s-%d" % (e, part), "kind": "exhaustive", "size": 10,
                             "embedding": e, "part": part, "parts": 4})
         out += [{"label": "random%d" % i, "kind": "random", "n": 20000, "maxlen": 400} for i in range(3)]
         out += [{"label": "long", "kind": "random", "n": 300, "maxlen": 100000, "long": True}]
